@@ -10,5 +10,7 @@ DescUpdatesDeactivated == TRUE \* F8d
 
 \* behaviour generation: print every complete behaviour as JSON (Hist = TRUE configurations only)
 Emit == (Terminal /\ Hist) => PrintT(ToJson(hist))
+\* generation: only the last two operations of a behaviour overlap (the earlier ones set up the subject sequentially)
+ConcLate == Cardinality(Active) <= 1 \/ nops >= MaxOps
 HistBound == Len(hist) <= 60
 =============================================================================
